@@ -26,6 +26,7 @@ import falcon.asgi
 import falcon.media
 from falcon.media.base import BaseHandler
 
+from vf.gen import resp_history as RH
 from vf.core import HarnessError, Info, Suite, Violation
 from vf.drivers import asgi as A
 from vf.drivers import wsgi as W
@@ -1330,5 +1331,28 @@ class ResponseHistory(Suite):
         return Info(nt, [case['stack']] + sorted('op:' + k for k in kinds) + (['render_then_mutate_then_reassign'] if nt else []))
 
 
-SUITES = [RoundTrip(), History(), HandlerFailure(), Truncations(), ResponseHistory()]
+class ResponseHistoryEnum(Suite):
+    """EVERY history of at most 6 (thorough: 8) operations on one response object out of: media = document A / document B /
+    None, change the document in place and assign the same object again, data = bytes / None, render_body() — on
+    falcon.Response and falcon.asgi.Response (vf/gen/resp_history.py).  Whenever media is what is sent, every
+    render_body() result must decode to the document as it was when it was assigned last."""
+
+    name = 'response_history_enum'
+    exhaustive = True
+    budget = {'quick': 1, 'thorough': 1}
+    MAX_LEN = {'quick': 6, 'thorough': 8}
+
+    def cases(self, tier):
+        for stack in ('wsgi', 'asgi'):
+            for prefix in RH.block_cases(RH.MEDIA_ONLY, 2 if tier == 'quick' else 3):
+                yield {'stack': stack, 'prefix': prefix, 'max_len': self.MAX_LEN[tier]}
+
+    def run(self, case):
+        make = falcon.Response if case['stack'] == 'wsgi' else falcon.asgi.Response
+        n, after = RH.run_block(make, RH.MEDIA_ONLY, case['prefix'], case['max_len'], 'response_media_stale')
+        return Info(True, [case['stack'], 'histories:%d' % n, 'with_render_before_an_assignment:%d' % after])
+
+
+
+SUITES = [RoundTrip(), History(), HandlerFailure(), Truncations(), ResponseHistory(), ResponseHistoryEnum()]
 KNOWN = {}
